@@ -499,6 +499,12 @@ def _range_aux(E, st, start, end):
         for mid, ms in st.maps.items():
             if ms.dead or ms.phantom or not z.entails_eq(end, ms.len):
                 continue
+            if slots.aux_get(st, ms.len, start) is None or ms.len is end:
+                # the container's len gets a term of its own (it may share one with the loop bound, of which it
+                # is a copy): the two quantities part ways as soon as an element is removed
+                L = fresh('l')
+                z.add_eq(L, ms.len)
+                ms.len = L
             for fr in st.frames.values():
                 for l in list(fr):
                     v = fr[l]
